@@ -11,7 +11,7 @@ FORMULAS = [
     "y ~ x", "y ~ 1", "y ~ 0 + x", "y ~ x + f", "y ~ f:g + x", "y ~ bs(x, df=4) + f", "y ~ poly(x, 2):f", "y ~ x + (1|g)",
     "y ~ x + (x|g)", "y ~ (0 + f|g)", "y ~ (f|g) + (1|h)", "y ~ (x|g) + (z|h)", "y ~ (1|g:h)", "y ~ (x + z|g)", "y ~ x + (bs(x, df=4)|g)",
     "y ~ (poly(x, 2)|g) + (1|h)", "y ~ (f:x|g)", "f ~ x", "s['yes'] ~ x + (1|g)", "prop(succ, trials) ~ x", "y ~ scale(x) + (scale(x)|g)",
-    "y ~ x + (x|g) + (x|h)", "y ~ (1|h) + (x|g)", "y ~ C(site) + x", "y ~ 0 + S(site) + x", "y ~ x:C(lab) + z", "y ~ poly(x, 2) + z", "y ~ x + (poly(x, 2)|g)", "y ~ 0 + I((x + 1) * 2) + I(x + 1 * 2)", "y ~ x + `x`", "y ~ x + offset(z) + f", "y ~ offset(2.5) + (1|g)",
+    "y ~ x + (x|g) + (x|h)", "y ~ (1|h) + (x|g)", "y ~ C(site) + x", "y ~ 0 + S(site) + x", "y ~ x:C(lab) + z", "y ~ poly(x, 2) + z", "y ~ x + (poly(x, 2)|g)", "y ~ ki + kb + x", "y ~ 0 + ki:f", "y ~ x + (1|ga:hb)", "y ~ (x|ga:hb)", "y ~ (1|o4)", "y ~ 0 + I((x + 1) * 2) + I(x + 1 * 2)", "y ~ x + `x`", "y ~ x + offset(z) + f", "y ~ offset(2.5) + (1|g)",
 ]
 
 
@@ -27,6 +27,11 @@ def frame(seed, n=24):
     # numeric factors whose levels differ beyond the sixth significant digit (ids stored as float; 0.1 + 0.2 next to 0.3)
     d["site"] = _cover(rng, [1000001.0, 1000002.0, 1000003.0], n)
     d["lab"] = pd.Categorical(_cover(rng, [0.1 + 0.2, 0.3, 0.5], n))
+    d["ki"] = rng.integers(0, 9, size=n)                  # integer / boolean at training, fractions / counts in the new frames (see _chunk)
+    d["kb"] = rng.integers(0, 2, size=n).astype(bool)
+    d["ga"] = _cover(rng, ["u", "v", "w"], n)            # u:q and w:p never occur; o4 has an unused category
+    d["hb"] = [{"u": "p", "w": "q"}.get(a, b) for a, b in zip(d["ga"], _cover(rng, ["p", "q"], n))]
+    d["o4"] = pd.Categorical(_cover(rng, ["l", "m", "h"], n), categories=["l", "m", "h", "xl"], ordered=True)
     return d
 
 
@@ -96,6 +101,8 @@ def _chunk(task):
     from formulae import design_matrices
     d = frame(seed)
     new_seen = d.iloc[[0, 1, 2, 3, 5]].reset_index(drop=True)
+    new_seen["ki"] = [1.5, 2.25, 0.0, 7.75, 3.0]
+    new_seen["kb"] = [2, 0, 1, 3, 1]
     new_g = new_seen.copy()
     new_g["g"] = ["u", "NEW", "v", "NEW", "w"]
     new_h = new_seen.copy()
